@@ -24,7 +24,7 @@ var scriptFaults = []string{"replace-type", "duplicate", "omit", "truncate-body"
 var scriptReach = []string{"honest-client-vs-gm-server", "honest-client-vs-auto-server", "honest-server-vs-gm-client", "must-complete-completed", "must-fail-failed", "unspecified-ok", "eut-client", "eut-server-gm", "eut-server-auto", "eut-server-tls", "alert-from-eut", "timeout-at-deadline", "legit-wait", "client-auth-path", "dev-in-client-flight", "dev-in-server-flight", "dev-after-ccs", "scripted-tls12-peer", "honest-tls12-client-vs-auto-server", "honest-tls12-client-vs-tls-server", "honest-tls12-server-vs-tls-client", "npn-negotiated", "unnegotiated-optional-message-refused", "honest-ecdhe-completed", "server-version-bounds", "server-getconfigforclient"}
 
 func init() {
-	register(Family{Name: "tls-scripted-peer", Prop: "C15", ID: 1501, Weight: 1, FaultNames: scriptFaults, ReachNames: scriptReach, Run: runScriptedPeer})
+	register(Family{Name: "tls-scripted-peer", Prop: "C15", ID: 1501, Weight: 7, FaultNames: scriptFaults, ReachNames: scriptReach, Run: runScriptedPeer})
 }
 
 const (
